@@ -69,7 +69,8 @@ pub open spec fn swfe_post(w: Whirlpool, mint_a: crate::token_v2::Mint, mint_b: 
 // ------------------------------------------------------------------ handlers (Anchor): shims for the account wrappers
 //@ tags C03 C17 C06
 //@ assume anchor account wrappers are shims: Context (accounts behind &mut), Account<'info, T> (data + key, Deref/DerefMut), Program, Signer, UncheckedAccount, AccountInfo; every #[account(..)] attribute of the #[derive(Accounts)] structs is dropped by the extractor and NOT checked (C15: those constraints are outside this framework); Clock::get is a stub; the tick-sequence builder and the oracle accessor are stubs whose results are uninterpreted functions of their inputs; token CPIs are stubs that record a fact moved(from, to, amount)
-pub struct Context<'a, 'b, 'c, 'info, T> { pub accounts: &'b mut T, pub remaining_accounts: &'c [AccountInfo<'info>], pub p: core::marker::PhantomData<&'a ()> }
+pub struct BumpsShim { pub position: u8 }
+pub struct Context<'a, 'b, 'c, 'info, T> { pub accounts: &'b mut T, pub remaining_accounts: &'c [AccountInfo<'info>], pub bumps: BumpsShim, pub p: core::marker::PhantomData<&'a ()> }
 pub use crate::authority::{AccountInfo, Signer, TokenAccount};
 pub struct Account<'info, T> { pub data: T, pub k: Pubkey, pub p: core::marker::PhantomData<&'info ()> }
 impl<'info, T> Account<'info, T> { pub fn key(&self) -> (r: Pubkey) ensures r == self.k { self.k } }
